@@ -1530,6 +1530,29 @@ void KillCtrl(char* Line) {
     } while (*z != '\0');
 }
 
+/*!------------------------------------------------------------------------
+ * \fn     SetMaxCodeLenForArgs(void)
+ * \brief  make the code buffer large enough for whatever a data statement
+ *         without repetition syntax can generate from the current arguments:
+ *         at most one element (<= 16 bytes) per argument resp. per character
+ *         of an argument
+ * \return True if the buffer is large enough now
+ * ------------------------------------------------------------------------ */
+
+Boolean SetMaxCodeLenForArgs(void) {
+    LongWord Need = 0;
+    int      z;
+
+    for (z = 1; z <= ArgCnt; z++) {
+        Need += 16 * ((LongWord)strlen(ArgStr[z].str.p_str) + 1);
+    }
+    if (SetMaxCodeLen(Need)) {
+        WrError(ErrNum_CodeOverflow);
+        return False;
+    }
+    return True;
+}
+
 /****************************************************************************/
 /* Buchhaltung */
 
